@@ -120,12 +120,35 @@ def decode():
         sx.reach("decode-" + got)
 
 
+def _attach_disabled_pdo(node, drive):
+    """the drive's PDOs that would carry controlword and statusword exist in the configuration but are switched
+    off (COB-ID bit 31): the words travel by SDO, whatever the disabled maps contain"""
+    net = sx.mod("canopen.network").Network()
+    net.send_message = lambda cid, data, remote=False: None
+    net.add_node(node)
+    _attach_sdo(node, drive)
+    r = node.rpdo[1]
+    r.clear()
+    r.add_variable(0x6040)
+    r.cob_id = 0x203
+    r.enabled = False
+    t = node.tpdo[1]
+    t.clear()
+    t.add_variable(0x6041)
+    t.cob_id = 0x183
+    t.enabled = False
+    node.setup_pdos(upload=False)
+    return net
+
+
 def transition(initial, target, transport):
     node = _node()
     drive = D.Drive(initial, auto_delay=sx.choice(3, "auto_delay"))
     sx.env().tick = 0.02
     if transport == "sdo":
         _attach_sdo(node, drive)
+    elif transport == "pdo-disabled":
+        _attach_disabled_pdo(node, drive)
     else:
         _attach_pdo(node, drive, event=(transport == "pdo-event"))
     n0 = len(drive.cw_writes)
@@ -316,6 +339,8 @@ def jobs(tier):
             out.append(dict(func="transition", params=dict(initial=ini, target=tgt, transport="sdo"), weight=2))
             out.append(dict(func="transition", params=dict(initial=ini, target=tgt, transport="pdo"), weight=3))
             out.append(dict(func="transition", params=dict(initial=ini, target=tgt, transport="pdo-event"), weight=3))
+            if tgt in D.COMMANDABLE:
+                out.append(dict(func="transition", params=dict(initial=ini, target=tgt, transport="pdo-disabled"), weight=2))
         for tgt in ("DISABLE VOLTAGE", "BOGUS"):
             out.append(dict(func="bad_target", params=dict(initial=ini, target=tgt)))
     for mode in D.MODES:
